@@ -132,7 +132,7 @@ func (r *Runner[T]) Run(ctx context.Context) error {
 		runCancel()
 	case err := <-r.serverErrors:
 		r.setStateError()
-		stopErr := r.stopAllRunnables()
+		stopErr := r.stopAllRunnablesSerialized()
 		return fmt.Errorf("%w: %w", ErrRunnableFailed, errors.Join(err, stopErr))
 	}
 
@@ -142,7 +142,7 @@ func (r *Runner[T]) Run(ctx context.Context) error {
 	}
 
 	// Stop all child runnables
-	if err := r.stopAllRunnables(); err != nil {
+	if err := r.stopAllRunnablesSerialized(); err != nil {
 		r.setStateError()
 		return fmt.Errorf("failed to stop runnables: %w", err)
 	}
@@ -230,6 +230,16 @@ func (r *Runner[T]) startRunnable(ctx context.Context, subRunnable T, idx int) {
 			"error", err,
 		)
 	}
+}
+
+// stopAllRunnablesSerialized is the teardown used by Run(): it waits for a reload in
+// progress to finish first. Without this, a Stop() or cancellation arriving between a
+// reload's setConfig(new) and boot(new) would call Stop() on children that boot has not
+// launched yet while boot waits for runnablesMu, and neither side could proceed.
+func (r *Runner[T]) stopAllRunnablesSerialized() error {
+	r.reloadMu.Lock()
+	defer r.reloadMu.Unlock()
+	return r.stopAllRunnables()
 }
 
 // stopAllRunnables stops all child runnables in reverse order (last to first).
